@@ -78,6 +78,15 @@ pub struct Harness {
     pub log: Vec<String>,
     pub verbose: bool,
     pub key_affinity: BTreeMap<(u32, u32, Vec<u8>, u32), u32>,
+    pub rotation: BTreeMap<(u32, u32, u32, u32), Vec<u32>>,
+    pub last_ping: BTreeMap<usize, u64>,
+    pub connected_at: BTreeMap<usize, u64>,
+    pub perm_verdict: Option<crate::harness_auth::Verdict>,
+    pub ever_user_ids: BTreeSet<u32>,
+    pub secrets: Vec<String>,
+    pub old_passwords: BTreeMap<u32, Vec<String>>,
+    pub token_owner: BTreeMap<usize, (u32, String)>,
+    pub token_expiry: BTreeMap<usize, Option<(u64, u64)>>,
 }
 
 fn ok<T>(r: &Result<T, IggyError>) -> bool {
@@ -170,6 +179,15 @@ impl Harness {
             log: Vec::new(),
             verbose: std::env::var("VERIF_VERBOSE").is_ok(),
             key_affinity: BTreeMap::new(),
+            rotation: BTreeMap::new(),
+            last_ping: BTreeMap::new(),
+            connected_at: BTreeMap::new(),
+            perm_verdict: None,
+            ever_user_ids: [1u32].into_iter().collect(),
+            secrets: vec![],
+            old_passwords: BTreeMap::new(),
+            token_owner: BTreeMap::new(),
+            token_expiry: BTreeMap::new(),
         }
     }
 
@@ -190,6 +208,37 @@ impl Harness {
         }
     }
 
+    /// Judges the permission outcome of the current operation; `false` = stop (refused as it must be,
+    /// or a violation has been reported and the model must not be stepped).
+    pub fn perm_gate(&mut self, what: &str, result_ok: bool, err: Option<&IggyError>) -> bool {
+        use crate::harness_auth::Verdict;
+        let unauthorized = matches!(err, Some(IggyError::Unauthorized));
+        match self.perm_verdict {
+            None => true,
+            Some(Verdict::Deny) => {
+                if result_ok {
+                    self.violate("C09", "no_operation_without_grant", format!("escalation:{what}"), format!("{what} succeeded although no documented rule grants it to this user"));
+                    true
+                } else {
+                    self.stats.probe("ungranted_request_refused");
+                    false
+                }
+            }
+            Some(Verdict::Allow) => {
+                if !result_ok && unauthorized {
+                    self.violate("C09", "documented_grant_honoured", format!("refused:{what}"), format!("{what} was refused as unauthorized although the documented hierarchy grants it"));
+                    false
+                } else {
+                    if result_ok {
+                        self.stats.probe("granted_request_served");
+                    }
+                    true
+                }
+            }
+            Some(Verdict::Either) => !(unauthorized && !result_ok),
+        }
+    }
+
     fn note(&mut self, text: String) {
         if self.verbose {
             eprintln!("[op {}] {}", self.op_index, text);
@@ -199,7 +248,9 @@ impl Harness {
     pub async fn connect_client(&mut self, c: usize, as_root: bool) -> Result<(), IggyError> {
         let client = TcpClient::create(Arc::new(self.world.client_config(false, false)))?;
         Client::connect(&client).await?;
-        self.model.sessions[c] = MSession { connected: true, user: 0, client_id: None };
+        self.model.sessions[c] = MSession { connected: true, user: 0, client_id: None, deleted_user: None };
+        self.connected_at.insert(c, self.sim.now_micros());
+        self.last_ping.remove(&c);
         if as_root {
             client.login_user(crate::world::ROOT_USER, crate::world::ROOT_PASSWORD).await?;
             self.model.sessions[c].user = 1;
@@ -234,6 +285,16 @@ impl Harness {
         if self.verbose {
             eprintln!("[op {}] {:?}", self.op_index, op);
         }
+        self.perm_verdict = None;
+        if let Some(c) = op_client(op) {
+            let user = self.model.sessions.get(c).map(|s| s.user).unwrap_or(0);
+            if user > 1 {
+                if let Some(need) = crate::harness_auth::need_of(&self.model, op, user) {
+                    let perms = self.model.users.get(&user).and_then(|u| u.perms.clone());
+                    self.perm_verdict = Some(crate::harness_auth::verdict_for(&perms, need));
+                }
+            }
+        }
         match op {
             Op::Send { c, stream, topic, part, msgs } => self.op_send(*c, stream, topic, part, msgs).await,
             Op::Poll { c, stream, topic, partition, who, kind, count, auto_commit } => {
@@ -266,6 +327,11 @@ impl Harness {
                 }
             }
             Op::Disconnect { c } => {
+                if let Some(id) = self.model.sessions[*c].client_id {
+                    crate::harness_grp::forget_client(self, id);
+                } else if self.model.sessions[*c].connected {
+                    // memberships of a connection whose id was never learned: it joined nothing
+                }
                 self.clients[*c] = None;
                 self.model.sessions[*c] = MSession::default();
                 self.sim.settle().await;
@@ -276,6 +342,28 @@ impl Harness {
             self.sim.settle().await;
         }
         self.check_panics("C06");
+        // connection health: a connection the server has closed (handler panic, eviction, deleted user)
+        // is noticed here, so that later operations are not judged against a dead pipe
+        if let Some(c) = op_client(op) {
+            if c < self.clients.len() && self.clients[c].is_some() && self.model.sessions[c].connected && self.world.is_up() {
+                let alive = self.clients[c].as_ref().unwrap().ping().await.is_ok();
+                if alive {
+                    let now = self.sim.now_micros();
+                    self.last_ping.insert(c, now);
+                } else {
+                    self.stats.probe("connection_found_dead");
+                    if let Some(id) = self.model.sessions[c].client_id {
+                        crate::harness_grp::forget_client(self, id);
+                    }
+                    self.clients[c] = None;
+                    self.model.sessions[c] = MSession::default();
+                    self.sim.settle().await;
+                    if c == 0 {
+                        let _ = self.connect_client(0, true).await;
+                    }
+                }
+            }
+        }
         self.state_hashes.insert(self.model.state_hash());
         self.op_index += 1;
     }
@@ -318,6 +406,9 @@ impl Harness {
             self.sim.settle().await;
         }
         let hi = self.sim.now_micros();
+        if !self.perm_gate("send_messages", result.is_ok(), result.as_ref().err()) {
+            return;
+        }
         if ok(&result) {
             *self.stats.ops_ok.entry("send").or_insert(0) += 1;
         }
@@ -365,6 +456,10 @@ impl Harness {
                     return;
                 }
             }
+        }
+        if expect_ok && full_before.is_none() && matches!(result, Err(IggyError::TopicFull(_, _))) && self.model.streams[&sid].topics[&tid].max_size.is_some() && !self.model.delete_oldest {
+            // a size-limited topic may be full; whether it is, is judged by C15's check only
+            return;
         }
         if expect_ok && !ok(&result) {
             self.violate("C06", "valid_send_fails", format!("{:?}", result.as_ref().err().map(|e| e.as_string())), format!("valid send to {sid}/{tid} {part:?} failed: {:?}", result.as_ref().err()));
@@ -574,6 +669,9 @@ impl Harness {
         let result = client
             .poll_messages(&stream.to_identifier(), &topic.to_identifier(), partition, &consumer, &strategy, count, auto_commit)
             .await;
+        if !self.perm_gate("poll_messages", result.is_ok(), result.as_ref().err()) {
+            return;
+        }
         let Some((sid, tid)) = self.model.topic_ids(stream, topic) else {
             if ok(&result) {
                 self.violate("C06", "poll_unknown_topic", "accepted", format!("poll of unknown {stream:?}/{topic:?} succeeded"));
@@ -752,6 +850,9 @@ impl Harness {
         }
         let client = self.client(c).unwrap();
         let result = client.flush_unsaved_buffer(&stream.to_identifier(), &topic.to_identifier(), partition, fsync).await;
+        if !self.perm_gate("flush_unsaved_buffer", result.is_ok(), result.as_ref().err()) {
+            return;
+        }
         let exists = self.model.topic(stream, topic).map(|t| t.partitions.contains_key(&partition)).unwrap_or(false);
         if exists && !ok(&result) {
             self.violate("C06", "valid_flush_fails", "error", format!("flush of {stream:?}/{topic:?}/{partition} failed: {:?}", result.err()));
@@ -770,6 +871,9 @@ impl Harness {
         };
         let client = self.client(c).unwrap();
         let result = client.store_consumer_offset(&consumer, &stream.to_identifier(), &topic.to_identifier(), partition, offset).await;
+        if !self.perm_gate("store_consumer_offset", result.is_ok(), result.as_ref().err()) {
+            return;
+        }
         let Some((sid, tid, p, is_group, key)) = self.resolve_offset_target(stream, topic, partition, who) else {
             if ok(&result) {
                 self.violate("C07", "store_unknown_target", "accepted", format!("store offset for unknown target {stream:?}/{topic:?}/{partition:?} {who:?} accepted"));
@@ -885,6 +989,9 @@ impl Harness {
         };
         let client = self.client(c).unwrap();
         let result = client.delete_consumer_offset(&consumer, &stream.to_identifier(), &topic.to_identifier(), partition).await;
+        if !self.perm_gate("delete_consumer_offset", result.is_ok(), result.as_ref().err()) {
+            return;
+        }
         let Some((sid, tid, p, is_group, key)) = self.resolve_offset_target(stream, topic, partition, who) else {
             return;
         };
@@ -1063,6 +1170,13 @@ impl Harness {
         }
         crate::harness_cat::audit_catalogue(self).await;
     }
+}
+
+pub fn op_client(op: &Op) -> Option<usize> {
+    let v = serde_json::to_value(op).ok()?;
+    let obj = v.as_object()?;
+    let inner = obj.values().next()?;
+    inner.get("c").and_then(|c| c.as_u64()).map(|c| c as usize)
 }
 
 pub fn clone_messages(m: &[iggy::models::messages::PolledMessage]) -> Vec<iggy::models::messages::PolledMessage> {
